@@ -256,7 +256,8 @@ CHECKS = {
                 ' The constant and variable scans recurse into nested blocks; `$v` is emitted only when the variable set is non-empty (grammar `$v token+`); a slice written as one tuple display is read as the equivalent appends. Every labelled statement is entered into the container of cut antecedents on every path of the scanning loop, whether or not a slice is emitted for it.'
                 ' A set iteration in the slicer is order-free only if all it produces in order is a run of `$d` statements (they commute), whatever its spelling; a `$d` restriction is emitted exactly under `pair <= declared variables`.'
                 " Every antecedent component a lemma block is taken apart into reaches both the lemma's own slice and the axiom registered for later slices (sibling agreement)."
-                ' The small functions the slicer is built from are decided on the values they return (labels between the parentheses, block = antecedents + lemma, registered axiom, notation axiom of a constructor, constant scan); arguments are not exchanged (arguments-by-name); what is needed is never passed over by the emitting pass.',
+                ' The small functions the slicer is built from are decided on the values they return (labels between the parentheses, block = antecedents + lemma, registered axiom, notation axiom of a constructor, constant scan); arguments are not exchanged (arguments-by-name); what is needed is never passed over by the emitting pass.'
+                ' The printer half: per Encoder method and path, every field of the node is written (unless known empty), tokens are separated by blanks, delimiters come in pairs, `$` is followed by the statement letter, a provable statement gets `$=` (printer-output).',
         'note': 'Trusted: python ast; the grammar is read from the `syntax` constant of metamath/parser.py.',
         'design_ref': 'DESIGN.md section 3, C17',
     },
@@ -286,7 +287,8 @@ CHECKS = {
                 'in that scope by lookup. Commutation of conversion with substitution and checker acceptance are not decided (the K '
                 'modules cannot even be imported here; the analysis is purely syntactic). KSymbol.unwrap_kore_name is the exact inverse of the prefixing in aml_symbol (removeprefix / slice of the prefix length under a startswith guard); the rows of instantiate, load and the publishes (the only calls a K proof makes) are the C02 rows.'
                 ' get_proof_hints examines every adjacent pair of trace entries (loop header evaluated over four abstract entries); the configuration is advanced only after the claim and the proof are registered, decided by event order through helper methods.'
-                ' The scope tables are distinct objects per scope (no dict.fromkeys(keys, {}) / [[..]] * n sharing).',
+                ' The scope tables are distinct objects per scope (no dict.fromkeys(keys, {}) / [[..]] * n sharing).'
+                " Every hint of the trace becomes one rewrite step on one proof expression; the rule's axiom is declared before the proof is registered; a hint's configuration before is what the previous step reached and its configuration after is the conversion of the next trace entry (hint-chains-configurations); each Kore connective is converted to its notation with the components in the connective's own order (conversion-order, 13 arms).",
         'note': 'Trusted: python ast.',
         'design_ref': 'DESIGN.md section 3, C20',
     },
